@@ -77,7 +77,7 @@ ASSUMPTIONS = [
     '(U1, U2, U3 class, U5), not on completeness (U3 row+file, U4); a clean() call that returns without raising is a complete pass (U8)',
 ]
 REQUIRED_HITS = [
-    'hook._clean_calls', 'hook.delete_blobs_calls', 'pass.content', 'pass.network', 'op.clean', 'op.content', 'op.network', 'op.loop',
+    'hook._clean_calls', 'hook.delete_blobs_calls', 'pass.removed_more_than_1000_blobs', 'pass.content', 'pass.network', 'op.clean', 'op.content', 'op.network', 'op.loop',
     'U0.checked', 'U1.within_limit_with_removable.content', 'U1.within_limit_with_removable.network',
     'U1.unlimited_with_removable.content', 'U1.exactly_at_limit.content', 'U1.exactly_at_limit.network',
     'U2.checked_pass_deleting_with_own_present', 'U3.deleted_blob_class_checked', 'U3.survivor_checked',
@@ -346,6 +346,24 @@ def gen_cases(rng, tier, shard, nshards):
         if i % 8 == 3:
             case['cut'] = 1
         yield case
+    # stores whose excess takes more than a thousand blobs to clear (the user lowers a limit by gigabytes; seeded break C19-K capped one
+    # pass at 1000 blobs).  Generated after everything else so that the older cases stay what they were
+    many = list(many_specs(rng, 3 if tier == 'quick' else 16))
+    for i, spec in enumerate(many):
+        if (i + 1) % nshards == shard:
+            yield {'fam': 'spec', 'name': f'many{i}', 'spec': spec}
+
+
+def many_specs(rng, count):
+    for i in range(count):
+        n = rng.randrange(1100, 1700)
+        sizes = [MIB] * n if i % 3 == 0 else [rng.choice([MIB, MIB, MIB + 5, 2 * MIB, MIB // 2, MIB - 1]) for _ in range(n)]
+        if i % 3 == 1:
+            yield {'streams': [_stream('dl0', 'dl', sizes[:n // 2], t0=1000), _stream('dl1', 'dl', sizes[n // 2:], t0=5000)], 'net': [],
+                   'passes': [_p('content', rng.choice([1, 20, 90]), 0), _p('clean', 'keep', 'keep')]}
+        else:
+            yield {'streams': [_stream('dl0', 'dl', [MIB])], 'net': _net(sizes),
+                   'passes': [_p('network' if i % 2 else 'clean', 0, rng.choice([0, 7, 60])), _p('clean', 'keep', 'keep')]}
 
 
 # ------------------------------------------------------------------------------------ harness
@@ -801,6 +819,8 @@ async def _run(rec, case, spec):
                                        'spec': spec if len(json.dumps(spec)) < 6000 else 'see case (seeded)'})
             for x in records:
                 rec.hit('pass.network' if x['is_net'] else 'pass.content')
+                if sum(1 for h in x['pre']['blobs'] if h not in x['post']['blobs']) > 1000:
+                    rec.hit('pass.removed_more_than_1000_blobs')
                 # ownership as the USER declared it (is_mine=True handed to get_blob / store_stream / update_blob_ownership, real publishes),
                 # not as the database column says now; blobs listed by two streams are left to the column
                 declared = {h for h in env.published if env.listed_by.get(h, 0) <= 1}
